@@ -59,6 +59,12 @@ def run(rep, tier):
                         cases.append((js, cname, layout, "case_kdf", (a, kl, cl, ol), "kdf%s key %d custom %d output %d" % (sfx, kl, cl, ol),
                                       "ascon_kdf" + sfx))
         for hm in (False, True):
+            # password / salt lengths around the HMAC block (64) and digest (32) sizes and the cXOF rate
+            for (pl, sl) in (((0, 0), (32, 8), (33, 1), (64, 16), (65, 40)) if tier == "quick" else
+                             ((0, 0), (1, 1), (8, 7), (31, 8), (32, 8), (33, 1), (40, 9), (63, 5), (64, 16), (65, 40), (100, 64), (129, 3))):
+                cases.append((js, cname, layout, "case_pbkdf2", (hm, pl, sl, 2, 33),
+                              "pbkdf2%s password %d salt %d count 2 output 33" % ("-hmac" if hm else "", pl, sl),
+                              "ascon_pbkdf2_hmac" if hm else "ascon_pbkdf2"))
             for count in (0, 1, 2, 3):
                 for ol in (1, 32, 33, 70):
                     if tier == "quick" and hm and ol == 70:
